@@ -238,22 +238,17 @@ Proof.
   - intros s Hno. apply try_parse_miss; assumption.
 Qed.
 
+(* IsEnum[T, TV](x) for EVERY integer x: true iff x is a declared value / is in Values() *)
 Lemma P_is_enum : forall p T fl g x,
   enum_guard p T = true -> generate p T fl = Some g ->
-  (is_enum (const_env p) g x = true <-> In (wrap (g_kind g) x) (map snd (declared T p)))
-  /\ (is_enum (const_env p) g x = true <-> In (wrap (g_kind g) x) (t_values (const_env p) g))
-  /\ (in_range (g_kind g) x = true ->
-      (is_enum (const_env p) g x = true <-> In x (map snd (declared T p)))).
+  (is_enum (const_env p) g x = true <-> In x (map snd (declared T p)))
+  /\ (is_enum (const_env p) g x = true <-> In x (t_values (const_env p) g)).
 Proof.
-  intros p T fl g x Hgd Hgen. ctx Hgd Hgen k Hg Hk. cbn [g_kind make_str].
+  intros p T fl g x Hgd Hgen. ctx Hgd Hgen k Hg Hk.
   pose proof (is_enum_spec p T k fl Hg Hk x) as Hspec.
   split; [exact Hspec|]. split.
-  - split.
-    + intros Hx. apply (values_in p T k fl Hg Hk). apply Hspec. exact Hx.
-    + intros Hx. apply Hspec. apply (values_in p T k fl Hg Hk). exact Hx.
-  - intros Hr. split.
-    + intros He. rewrite <- (wrap_in_range k x Hr). apply Hspec. exact He.
-    + intros Hin. apply Hspec. rewrite (wrap_in_range k x Hr). exact Hin.
+  - intros Hx. apply (values_in p T k fl Hg Hk). apply Hspec. exact Hx.
+  - intros Hx. apply Hspec. apply (values_in p T k fl Hg Hk). exact Hx.
 Qed.
 
 Lemma P_text_codec : forall p T fl g tgt,
@@ -279,52 +274,64 @@ Lemma P_sql_codec : forall p T fl g tgt,
   enum_guard p T = true -> generate p T fl = Some g ->
   (forall n v, In (n, v) (declared T p) ->
      (exists n1, first_name (declared T p) v = Some n1
-                 /\ sql_value (const_env p) g v = SStr (trim_prefix n1 T)
-                 /\ scan (const_env p) g (SBytes (trim_prefix n1 T)) tgt = (None, v))
-     /\ scan (const_env p) g (SBytes (trim_prefix n T)) tgt = (None, v))
+                 /\ sql_value (const_env p) g v = SStr (trim_prefix n1 T))
+     /\ scan (const_env p) g (sql_value (const_env p) g v) tgt = (None, v)
+     /\ scan (const_env p) g (SBytes (trim_prefix n T)) tgt = (None, v)
+     /\ scan (const_env p) g (SStr (trim_prefix n T)) tgt = (None, v))
   /\ (forall s, ~ declared_name p T s ->
-        scan (const_env p) g (SBytes s) tgt = (Some ENotFound, tgt))
-  /\ (forall sv, (forall s, sv <> SBytes s) -> scan (const_env p) g sv tgt = (Some EBadType, tgt)).
+        scan (const_env p) g (SBytes s) tgt = (Some ENotFound, tgt)
+        /\ scan (const_env p) g (SStr s) tgt = (Some ENotFound, tgt))
+  /\ (forall sv, (forall s, sv <> SBytes s) -> (forall s, sv <> SStr s) ->
+        scan (const_env p) g sv tgt = (Some EBadType, tgt)).
 Proof.
   intros p T fl g tgt Hgd Hgen. ctx Hgd Hgen k Hg Hk. split; [|split].
-  - intros n v Hin. split.
-    + destruct (str_of_declared p T k fl Hg Hk n v Hin) as [n1 [Hf [Hin1 Hs]]].
-      exists n1. split; [exact Hf|]. split.
-      * unfold sql_value. rewrite Hs. reflexivity.
-      * unfold scan. rewrite (parse_enum_hit p T k fl Hg Hk n1 v Hin1). reflexivity.
-    + unfold scan. rewrite (parse_enum_hit p T k fl Hg Hk n v Hin). reflexivity.
+  - intros n v Hin. split; [|split].
+    + destruct (str_of_declared p T k fl Hg Hk n v Hin) as [n1 [Hf [_ Hs]]].
+      exists n1. split; [exact Hf|]. unfold sql_value. rewrite Hs. reflexivity.
+    + apply (sql_roundtrip p T k fl Hg Hk n v tgt Hin).
+    + apply (scan_accepts p T k fl Hg Hk n v tgt Hin).
   - intros s Hno. apply scan_rejects_name; assumption.
-  - intros sv Hno. apply scan_rejects_type; assumption.
+  - intros sv Hno1 Hno2. apply scan_rejects_type; assumption.
 Qed.
 
-Section Json.
-  Variable jenc : string -> string.
-  Variable jdec : string -> option string.
-  Hypothesis jdec_jenc : forall s, jdec (jenc s) = Some s.
+(* encoding/json enters as two functions: jenc = json.Marshal of a Go string, jdec =
+   json.Unmarshal into a *string (None = error).  Rejection and acceptance hold for an
+   ARBITRARY decoder; only the round trip needs the decoder to invert the encoder, and
+   only on the declared (trimmed) names -- identifiers, which encoding/json round-trips. *)
+Lemma P_json_decode : forall (jdec : string -> option string) p T fl g tgt,
+  enum_guard p T = true -> generate p T fl = Some g ->
+  (forall data, jdec data = None ->
+      unmarshal_json (const_env p) g jdec data tgt = (Some ENotString, tgt))
+  /\ (forall data s, jdec data = Some s -> ~ declared_name p T s ->
+        unmarshal_json (const_env p) g jdec data tgt = (Some ENotFound, tgt))
+  /\ (forall data, jdec data = Some "" ->
+        unmarshal_json (const_env p) g jdec data tgt = (Some ENotFound, tgt))
+  /\ (forall data n v, jdec data = Some (trim_prefix n T) -> In (n, v) (declared T p) ->
+        unmarshal_json (const_env p) g jdec data tgt = (None, v)).
+Proof.
+  intros jdec p T fl g tgt Hgd Hgen. ctx Hgd Hgen k Hg Hk. split; [|split; [|split]].
+  - intros data Hd. apply json_rejects_nonstring; assumption.
+  - intros data s Hd Hno. apply (json_rejects_name p T k fl Hg Hk jdec data s tgt Hd Hno).
+  - intros data Hd. apply (json_rejects_name p T k fl Hg Hk jdec data "" tgt Hd).
+    apply (empty_not_declared p T k Hg Hk).
+  - intros data n v Hd Hin. apply (json_accepts p T k fl Hg Hk jdec data n v tgt Hd Hin).
+Qed.
 
-  Lemma P_json_codec : forall p T fl g tgt,
-    enum_guard p T = true -> generate p T fl = Some g ->
-    (forall n v, In (n, v) (declared T p) ->
-       (exists n1, first_name (declared T p) v = Some n1
-                   /\ marshal_json (const_env p) g jenc v = jenc (trim_prefix n1 T))
-       /\ unmarshal_json (const_env p) g jdec (marshal_json (const_env p) g jenc v) tgt = (None, v))
-    /\ (forall data, jdec data = None ->
-          unmarshal_json (const_env p) g jdec data tgt = (Some ENotString, tgt))
-    /\ (forall data s, jdec data = Some s -> ~ declared_name p T s ->
-          unmarshal_json (const_env p) g jdec data tgt = (Some ENotFound, tgt))
-    /\ (forall data n v, jdec data = Some (trim_prefix n T) -> In (n, v) (declared T p) ->
-          unmarshal_json (const_env p) g jdec data tgt = (None, v)).
-  Proof.
-    intros p T fl g tgt Hgd Hgen. ctx Hgd Hgen k Hg Hk. split; [|split; [|split]].
-    - intros n v Hin. split.
-      + destruct (str_of_declared p T k fl Hg Hk n v Hin) as [n1 [Hf [_ Hs]]].
-        exists n1. split; [exact Hf|]. unfold marshal_json. rewrite Hs. reflexivity.
-      + apply (json_roundtrip p T k fl Hg Hk jenc jdec jdec_jenc n v tgt Hin).
-    - intros data Hd. apply json_rejects_nonstring; assumption.
-    - intros data s Hd Hno. apply (json_rejects_name p T k fl Hg Hk jdec data s tgt Hd Hno).
-    - intros data n v Hd Hin. apply (json_accepts p T k fl Hg Hk jdec data n v tgt Hd Hin).
-  Qed.
-End Json.
+Lemma P_json_roundtrip : forall (jenc : string -> string) (jdec : string -> option string) p T fl g tgt,
+  enum_guard p T = true -> generate p T fl = Some g ->
+  (forall n v, In (n, v) (declared T p) -> jdec (jenc (trim_prefix n T)) = Some (trim_prefix n T)) ->
+  forall n v, In (n, v) (declared T p) ->
+    (exists n1, first_name (declared T p) v = Some n1
+                /\ marshal_json (const_env p) g jenc v = jenc (trim_prefix n1 T))
+    /\ unmarshal_json (const_env p) g jdec (marshal_json (const_env p) g jenc v) tgt = (None, v).
+Proof.
+  intros jenc jdec p T fl g tgt Hgd Hgen Hlaw n v Hin. ctx Hgd Hgen k Hg Hk.
+  destruct (str_of_declared p T k fl Hg Hk n v Hin) as [n1 [Hf [Hin1 Hs]]]. split.
+  - exists n1. split; [exact Hf|]. unfold marshal_json. rewrite Hs. reflexivity.
+  - unfold marshal_json. rewrite Hs. apply (json_accepts p T k fl Hg Hk jdec _ n1 v tgt).
+    + apply (Hlaw n1 v Hin1).
+    + exact Hin1.
+Qed.
 
 (* ======================================================================= C14 *)
 
